@@ -23,6 +23,9 @@ pub enum Source {
     SameIpOtherPort,
     /// exact address of the queried server (on-path duplicate / forgery)
     ExactAddress,
+    /// the exact address of ANOTHER server this node has also sent a request to (so an entry for that
+    /// address sits in the node's in-flight list): an addressed peer answering somebody else's request
+    OtherQueriedServer,
 }
 #[derive(Clone, Copy, Debug, PartialEq, Eq)]
 pub enum Tid {
@@ -221,6 +224,7 @@ fn run_once(c: &Case, adversary: bool) -> Observed {
                     Tid::Minus1 => tid_num.wrapping_sub(1).to_be_bytes().to_vec(),
                     Tid::Consumed => consumed.first().map(|c| c.1.clone()).unwrap_or_else(|| tid_num.wrapping_sub(7).to_be_bytes().to_vec()),
                 };
+                let mut spoof_from: Option<SocketAddrV4> = None;
                 let from_sock = match c.source {
                     Source::OtherIp => z_other,
                     Source::SameIpOtherPort => {
@@ -229,6 +233,14 @@ fn run_once(c: &Case, adversary: bool) -> Observed {
                         s
                     }
                     Source::ExactAddress => continue, // handled below from the genuine replies
+                    Source::OtherQueriedServer => {
+                        // the most recently addressed other server
+                        match entries.iter().rev().find(|e| e.1 != *to && Some(e.1) != dead_addr) {
+                            Some(e) => spoof_from = Some(e.1),
+                            None => continue,
+                        }
+                        z_other
+                    }
                 };
                 let me: [u8; 20] = [0x5a; 20];
                 let bytes = match c.payload {
@@ -247,7 +259,10 @@ fn run_once(c: &Case, adversary: bool) -> Observed {
                     Point::After => (200 * MS).saturating_sub(elapsed),
                     Point::AfterExpiry => 3 * SEC,
                 };
-                w.raw_send_exact(from_sock, &bytes, xaddr, delay);
+                match spoof_from {
+                    Some(from) => w.inject(from, &bytes, xaddr, delay),
+                    None => w.raw_send_exact(from_sock, &bytes, xaddr, delay),
+                }
                 obs.injected += 1;
                 if c.tid == Tid::Outstanding && c.point != Point::AfterExpiry {
                     obs.injected_matching_outstanding += 1;
@@ -425,6 +440,10 @@ pub fn hygiene(r: &mut Report, seed: u64) {
             if silent2[i] && q.is_query("get_peers") {
                 return true;
             }
+            // nobody acknowledges a write: a put of this node stays in its store phase until its requests expire
+            if q.is_query("announce_peer") {
+                return true;
+            }
             let mut rd = vec![("id", B::bytes(&ends2[i].0))];
             if let Some(t) = q.target() {
                 let mut list: Vec<([u8; 20], SocketAddrV4)> = knows2[i].iter().map(|j| ends2[*j]).collect();
@@ -481,6 +500,12 @@ pub fn hygiene(r: &mut Report, seed: u64) {
         starts.push(t);
         t += *rng.pick(&[0u64, 30 * MS, 150 * MS, 400 * MS, 900 * MS, 3 * SEC, 10 * SEC]);
     }
+    // in half of the worlds the application also announces (1..3 times, other info hashes) while the lookups run:
+    // the store requests of those puts are never acknowledged, so each put waits - with requests of its own in
+    // flight - while the lookups send theirs; a put must not claim an answer that belongs to a lookup
+    let n_puts = if rng.bool() { 1 + rng.usize(3) } else { 0 };
+    let put_starts: Vec<u64> = (0..n_puts).map(|_| starts[0] + rng.below((t - starts[0]).max(SEC) + 2 * SEC)).collect();
+    let mut put_tasks: Vec<Option<Task<bool>>> = (0..n_puts).map(|_| None).collect();
     type Fut = std::pin::Pin<Box<dyn std::future::Future<Output = Vec<Vec<SocketAddrV4>>>>>;
     let mut tasks: Vec<Option<Task<Vec<Vec<SocketAddrV4>>>>> = (0..hashes.len()).map(|_| None).collect();
     let end_all = t + 120 * SEC;
@@ -498,8 +523,27 @@ pub fn hygiene(r: &mut Report, seed: u64) {
                 tasks[j] = Some(Task::new(now, f));
             }
         }
+        for k in 0..n_puts {
+            if put_tasks[k].is_none() && now >= put_starts[k] {
+                let a = x.adht.clone();
+                let mut h: [u8; 20] = [0xee; 20];
+                h[0] = 0x80 + k as u8;
+                h[5] = seed as u8;
+                put_tasks[k] = Some(Task::new(now, async move { a.announce_peer(Id::from(h), Some(6000 + k as u16)).await.is_ok() }));
+            }
+        }
         let mut all = true;
         for tk in tasks.iter_mut() {
+            match tk {
+                Some(tk) => {
+                    if !tk.poll(now) {
+                        all = false;
+                    }
+                }
+                None => all = false,
+            }
+        }
+        for tk in put_tasks.iter_mut() {
             match tk {
                 Some(tk) => {
                     if !tk.poll(now) {
@@ -512,7 +556,7 @@ pub fn hygiene(r: &mut Report, seed: u64) {
         if all || now >= end_all {
             break;
         }
-        let next_start = (0..hashes.len()).filter(|j| tasks[*j].is_none()).map(|j| starts[j]).min().unwrap_or(end_all);
+        let next_start = (0..hashes.len()).filter(|j| tasks[*j].is_none()).map(|j| starts[j]).chain((0..n_puts).filter(|k| put_tasks[*k].is_none()).map(|k| put_starts[k])).min().unwrap_or(end_all);
         match w.step_until(next_start.max(now + 1).min(end_all)) {
             Step::Stuck => break,
             Step::Idle => {
@@ -555,6 +599,17 @@ pub fn hygiene(r: &mut Report, seed: u64) {
         if !missing.is_empty() && !silent_all {
             r.violation("hygiene/genuine-replies-lost", "an endpoint answered a lookup's request in time, but its peers were not yielded", case.clone(), json!({"lookup": j, "endpoints": missing}));
         }
+    }
+    for (k, tk) in put_tasks.into_iter().enumerate() {
+        r.count("hygiene_puts_never_acknowledged");
+        match tk.and_then(|t| t.result) {
+            None => r.violation("hygiene/put-did-not-complete", "announce_peer did not complete within 120 virtual seconds", case.clone(), json!({"put": k})),
+            Some(true) => r.violation("hygiene/put-ok-without-any-acknowledgement", "no endpoint ever acknowledges a write in this world, yet announce_peer returned Ok (an answer to another request was taken for an acknowledgement)", case.clone(), json!({"put": k})),
+            Some(false) => {}
+        }
+    }
+    if n_puts > 0 {
+        r.count("hygiene_worlds_with_puts_in_flight");
     }
     r.add("hygiene_lookups", lookups);
     r.add("hygiene_unsendable_requests", w.send_errors());
@@ -746,7 +801,7 @@ pub fn run(a: &Args) -> Report {
         let case = Case {
             seed: s("seed").parse().unwrap_or(1),
             servers: c["servers"].as_u64().unwrap_or(2) as usize,
-            source: match s("source").as_str() { "SameIpOtherPort" => Source::SameIpOtherPort, "ExactAddress" => Source::ExactAddress, _ => Source::OtherIp },
+            source: match s("source").as_str() { "SameIpOtherPort" => Source::SameIpOtherPort, "ExactAddress" => Source::ExactAddress, "OtherQueriedServer" => Source::OtherQueriedServer, _ => Source::OtherIp },
             tid: match s("tid").as_str() { "Plus1" => Tid::Plus1, "Minus1" => Tid::Minus1, "Consumed" => Tid::Consumed, _ => Tid::Outstanding },
             point: match s("point").as_str() { "After" => Point::After, "AfterExpiry" => Point::AfterExpiry, _ => Point::Before },
             payload: match s("payload").as_str() { "BogusPeers" => Payload::BogusPeers, "BogusIpVote" => Payload::BogusIpVote, "Error301" => Payload::Error301, "Error203" => Payload::Error203, "PingShaped" => Payload::PingShaped, p if p.starts_with("Duplicate") => Payload::Duplicate(p.chars().filter(|c| c.is_ascii_digit()).collect::<String>().parse().unwrap_or(2)), _ => Payload::SybilNodes },
@@ -765,8 +820,16 @@ pub fn run(a: &Args) -> Report {
         let seed = mix(a.seed, 0xba5e + b as u64);
         let servers = 1 + (b % 4);
         for call in 0..3 {
-            for source in [Source::OtherIp, Source::SameIpOtherPort] {
+            for source in [Source::OtherIp, Source::SameIpOtherPort, Source::OtherQueriedServer] {
+                if source == Source::OtherQueriedServer && servers < 2 {
+                    continue;
+                }
                 for tid in [Tid::Outstanding, Tid::Plus1, Tid::Minus1, Tid::Consumed] {
+                    // (a neighbouring or consumed id may be the very id of the request this node sent to that other
+                    // server: then the message is a forgery from the exact address, which nothing can tell apart)
+                    if source == Source::OtherQueriedServer && tid != Tid::Outstanding {
+                        continue;
+                    }
                     for point in [Point::Before, Point::After, Point::AfterExpiry] {
                         for payload in [Payload::SybilNodes, Payload::BogusPeers, Payload::BogusIpVote, Payload::Error301, Payload::Error203] {
                             cases.push(Case { seed, servers, source, tid, point, payload, call, only_holder: b % 2 == 0, dead_target: false });
@@ -786,7 +849,7 @@ pub fn run(a: &Args) -> Report {
     for b in 0..bases {
         let seed = mix(a.seed, 0xdead + b as u64);
         for call in [0usize, 2] {
-            for source in [Source::OtherIp, Source::SameIpOtherPort] {
+            for source in [Source::OtherIp, Source::SameIpOtherPort, Source::OtherQueriedServer] {
                 for point in [Point::Before, Point::After, Point::AfterExpiry] {
                     for payload in [Payload::PingShaped, Payload::BogusPeers, Payload::SybilNodes] {
                         cases.push(Case { seed, servers: 3 + b % 3, source, tid: Tid::Outstanding, point, payload, call, only_holder: false, dead_target: true });
